@@ -58,8 +58,10 @@ Print Assumptions found_prefix_resolves.
    instructions run between the declarations and the literal attributes -, xsl:element,
    xsl:attribute with or without namespace=, text, end tags; any nesting, any prefixes/URIs, any
    history), if the run raises no hazard
-   (exact decidable guard guard_ok: K17 duplicate expanded name, KN6 p:e with namespace="", KN10
-   a literal attribute whose prefix an attribute set re-bound before the attribute was added,
+   (exact decidable guard guard_ok; on a tree WITHOUT the respective repair: K17 duplicate expanded
+   name, KN6 p:e with namespace=""; on every tree: KN10 a literal attribute whose prefix was re-bound
+   on the pending start tag before the attribute was added (with the KN10 repair the xsl:attribute
+   of an attribute set no longer does that),
    xsl:attribute creating an xmlns declaration, and stylesheet-side arguments no stylesheet can
    produce), the namespace-aware reader accepts every start tag the engine has written: the element
    and each attribute resolve - through the declarations written on it and its ancestors - to
@@ -81,32 +83,6 @@ Print Assumptions result_ns_wellformed_partial_pending.
 Theorem hazards_accumulate : forall s o, exists l, hz (exec_op s o) = l ++ hz s.
 Proof. exact hz_ext_op. Qed.
 Print Assumptions hazards_accumulate.
-
-(* ---- xsl:attribute with a namespace attribute, one instruction, every engine state ---- *)
-
-(* result_ns_wellformed_partial, attribute clause: in any state with a pending element, if the
-   instruction raises no hazard (exact decidable guard: the hazard list is unchanged; since the
-   KN1 repair that excludes only a duplicate expanded name (K17)), the attribute
-   it leaves in the pending list has the requested local name and a prefix that the
-   result-namespace stack resolves to exactly the requested URI — whether that prefix was found
-   in scope, supplied by the name, or invented *)
-Theorem result_ns_attribute_step_partial : forall s P L u sns v,
-  pend s <> None -> stk s <> [] -> u <> 0 -> u <> uXMLNS ->
-  match P with None => True | Some a => plain_atom a = true end ->
-  hz (exec_attr s (P, L) (Some u) sns v) = hz s ->
-  exists q, In (mkAttr (Some q, L) v (u, L)) (pattrs (exec_attr s (P, L) (Some u) sns v))
-            /\ ns_for_prefix (stk (exec_attr s (P, L) (Some u) sns v)) (Some q) = Some u.
-Proof. exact attr_namespace_step. Qed.
-Print Assumptions result_ns_attribute_step_partial.
-
-(* the hypotheses are satisfiable: a pending <p:e xmlns:p="u4"> and name="p:a" namespace="u5"
-   (p is bound to another URI and in use, so a prefix is invented) *)
-Example attribute_step_nonvacuous :
-  let s := run [OLre (Some (U 1), U 2) [(Some (U 1), 4)] [] []] in
-  pend s <> None /\ stk s <> [] /\
-  hz (exec_attr s (Some (U 1), U 3) (Some 5) None 1) = hz s /\
-  In (mkAttr (Some (AGen 0), U 3) 1 (5, U 3)) (pattrs (exec_attr s (Some (U 1), U 3) (Some 5) None 1)).
-Proof. vm_compute. repeat split; try discriminate. right. right. left. reflexivity. Qed.
 
 (* ---- xsl:copy / xsl:copy-of: the ancestor walk of copyNamespaceAttributes ---- *)
 
@@ -149,15 +125,27 @@ Theorem lre_one_declaration_per_prefix : forall name inscope excl attrs,
 Proof. exact lre_decls_nodup. Qed.
 Print Assumptions lre_one_declaration_per_prefix.
 
-(* ---- the full statement is still false for the code as it is in two classes (known findings
-   K17, KN6): witnesses, replays in corpus/C14 ---- *)
+(* ---- K17, KN6, KN10: witness against the full statement on a tree without the repair,
+   regression example (guard holds, reader accepts) on a tree with it (fixes/C14/10..13).
+   GenNsfix.v, regenerated from the tree on every run, says which; the model, the whole-program
+   theorem above and these statements are written - and checked - for both values ---- *)
 
-Theorem result_ns_wellformed_refuted_K17 : refuted k17_prog.
-Proof. exact k17_refuted_l. Qed.
-Print Assumptions result_ns_wellformed_refuted_K17.
-Theorem result_ns_wellformed_refuted_element_empty_namespace : refuted emptyns_prog.
-Proof. exact emptyns_refuted_l. Qed.
-Print Assumptions result_ns_wellformed_refuted_element_empty_namespace.
+Theorem result_ns_K17_duplicate_expanded_name : witness k17_fixed k17_prog.
+Proof. exact k17_witness_l. Qed.
+Print Assumptions result_ns_K17_duplicate_expanded_name.
+Theorem result_ns_KN6_element_empty_namespace : witness kn6_fixed emptyns_prog.
+Proof. exact emptyns_witness_l. Qed.
+Print Assumptions result_ns_KN6_element_empty_namespace.
+Theorem result_ns_KN10_attribute_set_rebinds_prefix : witness kn10_fixed kn10_prog.
+Proof. exact kn10_witness_l. Qed.
+Print Assumptions result_ns_KN10_attribute_set_rebinds_prefix.
+
+(* with the K17 repair the duplicate-expanded-name hazard cannot be raised any more: adding an
+   attribute only ever adds the "creates a declaration" hazard *)
+Theorem k17_hazard_unreachable_when_repaired : k17_fixed = true -> forall s n v r,
+  hz (emit_attr s n v r) = (match decl_prefix n with Some _ => [HDeclAttr] | None => [] end) ++ hz s.
+Proof. exact k17_unreachable_l. Qed.
+Print Assumptions k17_hazard_unreachable_when_repaired.
 
 (* ---- regression examples: the programs of the repaired defects K3, K16, KN1, KN2, KN3, KN4, KN5
    now satisfy the guard and the reader accepts their events ---- *)
